@@ -949,7 +949,7 @@ func (vfs *MemFS) Symlink(oldname, newname string) error {
 	const op = "symlink"
 
 	parent, _, pi, nerr := vfs.searchNode(newname, slmLstat)
-	if !vfs.isNotExist(nerr) || parent == nil {
+	if !vfs.isNotExist(nerr) || parent == nil || !pi.IsLast() {
 		return &os.LinkError{Op: op, Old: oldname, New: newname, Err: nerr}
 	}
 
